@@ -16,44 +16,70 @@ Import ListNotations.
 Local Open Scope N_scope.
 
 (* For every rotation threshold, every group-commit bound, every schedule (batching of
-   concurrent writers), every outcome stream (fault placement: failed / partial / lying
-   append, disk full, failed fsync, failed create, in any number and position) and every
-   crash instant (prefix lengths n, m): every write acked Ok is returned by recovery. *)
+   concurrent writers, Shutdown and TruncateUpTo messages anywhere), every outcome stream
+   (fault placement: failed / partial / lying append, disk full, failed fsync, failed
+   create, failed delete, in any number and position) and every crash instant (prefix
+   lengths n, m): every write acked Ok whose stamp is above every watermark the actor was
+   asked to truncate to is returned by recovery.  (The stamp of write w is w; entries
+   stamped <= a watermark have been streamed to the object store and may be deleted.) *)
 Theorem C09_acked_survive :
   forall (max_file_size max_entries : N) (sched : list sched_item) (io : list outcome) (n m : nat),
   let a := run (Config Repaired max_file_size max_entries) (firstn n sched) (firstn m io) in
-  forall w, In w (acked_ok a) -> In w (recover_all (crash (s_store a))).
+  forall w, In w (acked_ok a) ->
+  (forall t, In (STruncate t) (firstn n sched) -> t < w) ->
+  In w (recover_all (crash (s_store a))).
 Proof. intros mf me sched io n m. exact (acked_survive_prefix (Config Repaired mf me) sched io n m eq_refl). Qed.
 Print Assumptions C09_acked_survive.
 
-(* The same without the explicit prefixes (every list is a prefix of some list). *)
-Theorem C09_acked_survive_all :
+(* The special case without truncation: the statement of the property as it stands. *)
+Theorem C09_acked_survive_no_truncation :
   forall (max_file_size max_entries : N) (sched : list sched_item) (io : list outcome),
+  (forall t, ~ In (STruncate t) sched) ->
   let a := run (Config Repaired max_file_size max_entries) sched io in
   forall w, In w (acked_ok a) -> In w (recover_all (crash (s_store a))).
-Proof. intros mf me sched io. exact (acked_survive_repaired (Config Repaired mf me) sched io eq_refl). Qed.
-Print Assumptions C09_acked_survive_all.
+Proof. intros mf me sched io NT. exact (acked_survive_no_truncation (Config Repaired mf me) sched io eq_refl NT). Qed.
+Print Assumptions C09_acked_survive_no_truncation.
+
+(* The sharp form: [s_released] collects exactly the readable entries of the files that
+   truncate_before deleted.  An acked write that is not among them is recovered; and only
+   entries stamped at or below an applied watermark are ever among them - whatever the
+   order of stamps inside a file (a file holding 5, 1, 3 is not deleted by watermark 3). *)
+Theorem C09_acked_survive_unless_truncated :
+  forall (max_file_size max_entries : N) (sched : list sched_item) (io : list outcome),
+  let a := run (Config Repaired max_file_size max_entries) sched io in
+  forall w, In w (acked_ok a) -> ~ In w (s_released a) -> In w (recover_all (crash (s_store a))).
+Proof. intros mf me sched io. exact (acked_survive_unless_released (Config Repaired mf me) sched io eq_refl). Qed.
+Print Assumptions C09_acked_survive_unless_truncated.
+
+Theorem C09_truncation_releases_only_below_watermark :
+  forall (cfg : config) (sched : list sched_item) (io : list outcome) (w : N),
+  In w (s_released (run cfg sched io)) -> exists t, In (STruncate t) sched /\ w <= t.
+Proof. exact released_below_watermark. Qed.
+Print Assumptions C09_truncation_releases_only_below_watermark.
 
 (* A crash that spares more than it must: file s keeps its first max(synced, keep s) items
    (any part of the unsynced tails may survive) - acked writes are recovered all the same. *)
 Theorem C09_acked_survive_any_spared_tail :
   forall (max_file_size max_entries : N) (sched : list sched_item) (io : list outcome) (keep : N -> nat),
   let a := run (Config Repaired max_file_size max_entries) sched io in
-  forall w, In w (acked_ok a) -> In w (recover_all (crash_keep keep (s_store a))).
+  forall w, In w (acked_ok a) -> ~ In w (s_released a) ->
+  In w (recover_all (crash_keep keep (s_store a))).
 Proof. intros mf me sched io keep. exact (acked_survive_keep (Config Repaired mf me) sched io keep eq_refl). Qed.
 Print Assumptions C09_acked_survive_any_spared_tail.
 
 (* Any number of crash / restart cycles (each incarnation: what its preceding crash spared,
-   its schedule, its outcome stream; a new actor starts on what survived, as
-   WalRotator::new does): a write acked Ok by any incarnation is recovered after the crash
-   of the last one. *)
+   its schedule, its outcome stream; a new actor starts on what survived, numbering its
+   files after the largest existing sequence number as WalRotator::new does): a write acked
+   Ok by any incarnation, stamped above every watermark of every incarnation, is recovered
+   after the crash of the last one. *)
 Theorem C09_acked_survive_restarts :
   forall (max_file_size max_entries : N)
          (hist : list ((N -> nat) * list sched_item * list outcome)) (keep : N -> nat),
   let a := run_incarnations (Config Repaired max_file_size max_entries) hist in
   forall w, In w (acked_ok a) ->
+    (forall k sched io t, In (k, sched, io) hist -> In (STruncate t) sched -> t < w) ->
     In w (recover_all (crash (s_store a))) /\ In w (recover_all (crash_keep keep (s_store a))).
-Proof. intros mf me hist keep. exact (acked_survive_restarts (Config Repaired mf me) hist keep eq_refl). Qed.
+Proof. intros mf me hist keep. exact (acked_survive_restarts_watermark (Config Repaired mf me) hist keep eq_refl). Qed.
 Print Assumptions C09_acked_survive_restarts.
 
 (* Sequence numbers of existing files never exceed current_sequence, and rotate() creates
@@ -119,3 +145,14 @@ Example C09_nonvacuous_restarts :
   map fst (s_store (run_incarnations repaired_cfg ex_hist3)) = [1; 2; 3; 4].
 Proof. exact example_restarts. Qed.
 Print Assumptions C09_nonvacuous_restarts.
+
+(* Truncation with out-of-order stamps inside a closed file. *)
+Example C09_nonvacuous_truncation :
+  acked_ok (run repaired_cfg (tr_sched 3) (repeat OOk 20)) = [9; 3; 1; 5] /\
+  s_released (run repaired_cfg (tr_sched 3) (repeat OOk 20)) = [] /\
+  recover_all (crash (s_store (run repaired_cfg (tr_sched 3) (repeat OOk 20)))) = [5; 1; 3; 9] /\
+  s_released (run repaired_cfg (tr_sched 5) (repeat OOk 20)) = [5; 1; 3] /\
+  recover_all (crash (s_store (run repaired_cfg (tr_sched 5) (repeat OOk 20)))) = [9] /\
+  s_halt (run repaired_cfg (tr_sched 5) (repeat OOk 20)) = false.
+Proof. exact example_truncation. Qed.
+Print Assumptions C09_nonvacuous_truncation.
